@@ -148,10 +148,19 @@ class AbsGF:
     """abstract generative function (callee) — see module docstring."""
 
     __vt_leaf__ = True
+    _live = None  # weak set of the instances alive (their call records are part of the per-path state)
 
-    def __init__(self, name="g", pair_retval=False, discard_kind="value", gen_total=False, ret_kind=None):
+    def __init__(self, name="g", pair_retval=False, discard_kind="value", gen_total=False, ret_kind=None, carry_kind=None):
+        import weakref
+
+        if AbsGF._live is None:
+            AbsGF._live = weakref.WeakSet()
+        AbsGF._live.add(self)
         n = engine().fresh_name
         self.name = name
+        # (carry, out) callees: the carry may be a NUMBER (carry_kind="float") instead of an abstract value
+        self.carry_kind = carry_kind
+        self.CarryF = z3.Function(n("CarryF_" + name), V, z3.RealSort())
         self.D = z3.Function(n("D_" + name), V, V, z3.RealSort())
         # return value: an abstract value, or (ret_kind="int" / "float") a NUMBER of that dtype
         self.ret_kind = ret_kind
@@ -178,6 +187,8 @@ class AbsGF:
     def _ret(self, a, x):
         r = self.R(a, x)
         if self.pair_retval:
+            if self.carry_kind == "float":
+                return (Sym(self.CarryF(r)), Sym(SndV(r)))
             return (Sym(FstV(r)), Sym(SndV(r)))
         return Sym(r)
 
